@@ -177,6 +177,7 @@ static Case gen_c12() {
 
 template <class W>
 static Verdict check_c12_t(const Case &c) {
+    if (!in_exact_domain(c.g)) { stats().note_case(c, false); stats().cls("skipped-outside-exact-domain"); return Verdict::pass(); }
     typedef BG<W> B;
     typedef typename B::graph_t G;
     typedef typename B::WeightMap WM;
@@ -359,6 +360,7 @@ static Verdict sufficient(const Case &c, const char *name, const std::vector<Can
 
 template <class W>
 static Verdict check_c14_t(const Case &c) {
+    if (!in_exact_domain(c.g)) { stats().note_case(c, false); stats().cls("skipped-outside-exact-domain"); return Verdict::pass(); }
     typedef typename BG<W>::graph_t G;
     typedef typename BG<W>::WeightMap WM;
     Stats &S = stats();
